@@ -592,6 +592,7 @@ def check(repo, rep, tier):
   from . import c06b
   c06b.rule_validation_table(repo, rep)
   c06b.rule_validate_vector(repo, rep)
+  c06b.rule_no_cross_dtype_cast(repo, rep)
   # the indices are interpreted by the preprocessor of THIS fit: the wrapper
   # is rebuilt on every fit (typestate rule of C17, preprocessor_ only)
   from . import c17
